@@ -36,6 +36,10 @@
 #define ENTRIES_PER_SUMMARY_MIN         (SAMPLE_DECIMATE_FACTOR_MIN)
 #define SUMMARY_DECIMATE_FACTOR_MIN     (SAMPLE_DECIMATE_FACTOR_MIN)
 #define F64_BUF_LENGTH_MIN (1 << 16)
+#if defined(JLS_VERIF) && defined(JLS_VERIF_F64_BUF_LENGTH_MIN)
+#undef F64_BUF_LENGTH_MIN
+#define F64_BUF_LENGTH_MIN (JLS_VERIF_F64_BUF_LENGTH_MIN)
+#endif
 #define SIGNAL_MASK  (0x0fff)
 #define TAU_F (6.283185307179586f)
 
